@@ -303,6 +303,54 @@ def explore_schedules(rep, rnd, stats, max_runs):
     return runs
 
 
+def yaml_path_jobs(rep, rnd, stats):
+    """Jobs given as a path to a YAML pipeline file; the file is rewritten between jobs (one at a time): every Future must
+    hold the result of the pipeline the file contained when the job ran."""
+    import yaml
+    pipegen.setup()
+    from semantiva.execution.job_queue.queue_orchestrator import QueueSemantivaOrchestrator
+    from semantiva.execution.job_queue.worker import worker_loop
+    from semantiva.execution.executor.executor import SequentialSemantivaExecutor
+    from semantiva.execution.transport.in_memory import InMemorySemantivaTransport
+    from semantiva.context_processors import ContextType
+    transport = InMemorySemantivaTransport()
+    stop = threading.Event()
+    lg = quiet_logger()
+    orch = QueueSemantivaOrchestrator(transport, stop_event=stop, logger=lg)
+    orch.job_queue = FastQueue()
+    threads = [threading.Thread(target=orch.run_forever, daemon=True),
+               threading.Thread(target=worker_loop, daemon=True, args=(0, transport, SequentialSemantivaExecutor(), stop),
+                                kwargs={"logger": lg, "poll_interval": 0.001})]
+    for t in threads:
+        t.start()
+    try:
+        with rt.tempdir() as d:
+            path = d / "current_job.yaml"
+            jobs, results = [], []
+            for k in range(4):
+                job = {"nodes": [{"processor": "TSource", "parameters": {"v": f"file-version-{k}"}}, {"processor": "TOp1", "parameters": {"a": k}}],
+                       "ctx": {"tag": k}, "data": None, "fails": False, "kind": "yaml-path"}
+                path.write_text(yaml.safe_dump({"extensions": ["props.components"], "pipeline": {"nodes": job["nodes"]}}, sort_keys=False))
+                fut = orch.enqueue(str(path), context=ContextType(copy.deepcopy(job["ctx"])), return_future=True)
+                try:
+                    data, ctx = fut.result(timeout=60)
+                    results.append(("ok", pipegen.data_view(data), pipegen.ctx_view(ctx)))
+                except Exception as exc:  # noqa: BLE001
+                    results.append(("pending",) if isinstance(exc, TimeoutError) else ("exception", type(exc).__name__, str(exc)))
+                jobs.append(job)
+                stats["yaml_path_jobs"] = stats.get("yaml_path_jobs", 0) + 1
+            for sig, what, det in judge(jobs, results):
+                rep.add_violation(sig + ":yaml-path", what + " (pipeline given as a YAML file path, file rewritten between jobs)",
+                                  {"jobs": [j["nodes"] for j in jobs], "finding": det})
+    finally:
+        stop.set()
+        orch.running = False
+        for t in threads:
+            t.join(timeout=5)
+        pipegen._READY = False          # the YAML loader applies a registry profile: register the harness components again
+        pipegen.setup()
+
+
 def judge(jobs, results):
     """Yield (signature, what, detail)."""
     seen_ids = {}
@@ -446,6 +494,10 @@ def run(tier: str) -> int:
                 mism.append({"batch": b, "difference": dmsg, "events": [list(e) for e in events[:60]]})
         if len(samples) < 2 and b % 5 == 0:
             samples.append({"jobs": n, "workers": nw, "events": [list(e) for e in events[:12]], "results": [r[0] for r in results]})
+    try:
+        yaml_path_jobs(rep, rnd, stats)
+    except Exception as exc:  # noqa: BLE001
+        rep.notes.append(f"yaml-path scenario failed: {exc!r}")
     try:
         explore_schedules(rep, rnd, stats, 160 if tier == "quick" else 1500)
     except Exception as exc:  # noqa: BLE001
